@@ -130,6 +130,27 @@ CHECKS = {
              "e2e correspondence; the kernel model's two events are a hand-written table",
         technique="Lean 4 iff theorem over the channel stack model + whole-table decide over regenerated tables + differential ovniemu runs",
         design="DESIGN.md §5 C08"),
+    "C11": dict(
+        text=("Theorems (Props/C11.lean, 19) over an interleaving model whose shared accesses are built from a FOOTPRINT regenerated "
+              "from ovni.c + common.c through the clang AST on every run (tools/gen/gen_footprint.py): every API function "
+              "other than proc_init/fini writes no process-wide member and only loads the state word, there is no other "
+              "shared mutable global, thread paths contain thread.<tid> (footprint_disjoint, thread_paths_contain_tid, "
+              "decide); for every schedule of N racing ovni_proc_init / ovni_proc_fini among any other tracing threads at "
+              "most one passes the compare-and-swap, on completion exactly one returned and all others died, and the process "
+              "state is the winner's (cas_once, init_once, fini_once; init_shape_generated/fini_shape_generated tie the step "
+              "lists to the generated ones); READY implies the process record is fully initialised in every reachable state "
+              "(ready_means_initialised, init_publishes_last); for every schedule and distinct tids each thread's local state, "
+              "stream.obs and stream.json equal those of its solo run and the process record is unchanged (thread_isolation, "
+              "solo_is_sequential, schedule_independent); each thread's stream is a run of the C01/C02 buffer model "
+              "(thread_stream_is_buffer_run); the load+store variant provably admits two winners (cas_is_needed). Tie: "
+              "regenerated footprint; the real ovni.c in a multi-threaded harness (ASan+UBSan, and a separate ThreadSanitizer "
+              "build) with per-thread clocks: per-thread files vs the single-threaded library, drv_rt and the interleaved "
+              "model; barrier races of proc_init/proc_fini in forked children (exactly one winner)."),
+        note=TB + "; PARTIAL BY NATURE: schedules are quantified in the model only - the real library is sampled (OS schedules, TSan); "
+             "thread-local storage is private, atomic_int operations are sequentially consistent single steps, the footprint is "
+             "syntactic, libc/parson internals are below the model",
+        technique="Lean 4 unwinding/non-interference proofs over a generated-footprint interleaving model + multi-threaded differential runs + TSan",
+        design="DESIGN.md §5 C11"),
     "C12": dict(
         text=("Theorems (Props/C12.lean, 18) over a byte-level model of check_stream_header / load_obs / stream_step with the exact C "
               "integer casts and ARBITRARY memory beyond the file: valid streams are accepted (non-vacuity); any single header "
@@ -231,6 +252,24 @@ CHECKS = {
              "is covered by the correspondence (threads defined in random orders), not by a theorem",
         technique="Lean 4 guard/merge theorems over transcriptions of the mark API and mark.c + differential runs of libovni and ovniemu",
         design="DESIGN.md §5 C17"),
+    "C18": dict(
+        text=("Theorems (Props/C18.lean) over a transcription of ev_spec_compile / ev_spec_print / model_evspec_init and of the "
+              "category switches of the eight event.c files, with the event lists and tables REGENERATED from /repo: for every "
+              "model and every code (all Nat triples, not only printable) the handler recognises it IFF it is listed or is an "
+              "enumerated exception (catalogue_eq, declared_handled, undeclared_rejected, handled_own_model), the exceptions "
+              "being exactly ovni OB*/OU* (value byte ignored) and the legacy 6TC (exceptions_enumerated); every signature "
+              "compiles with its model character, MCVs are distinct, fields are laid out sequentially (signature_wellformed); "
+              "for every listed event and every payload of the declared shape, printing succeeds and equals the description "
+              "with the fields substituted (print_total, declared_has_decl). Table-dependent facts reduce to one `decide "
+              "+kernel` per model, re-opened by any table/evlist edit. Tie: translator cross-checked with ovnievents; real "
+              "ev_spec_compile/print (libemu.a, ASan/UBSan) vs the model on all signatures, mutated signatures, formats, "
+              "payloads and boundary buffer sizes; one probe trace per code through ovniemu in a legal context (quick: "
+              "~15k codes; thorough: all 95x95x8 printable codes + non-printable + foreign); ovnidump lines for every "
+              "listed event with random arguments vs the model and an independent Python substitution."),
+        note=TB + "; printf subset [#][hh|h|l|ll|j]{d,i,u,x,X,s} on LP64 glibc; category switches hand-written (tied by the "
+             "exhaustive probes); ASCII strings",
+        technique="Lean 4 iff over generated tables (decide +kernel per model) + exhaustive probe correspondence (ovniemu, ovnidump, C harness)",
+        design="DESIGN.md §5 C18"),
     "C19": dict(
         text=("Theorems (Props/C19.lean, 17) over the same byte-level cursor, for ALL byte strings: for the code after the repair "
               "db50cd1 every successful stream_step advances the offset by at least 12 and stays within the file, so the "
